@@ -162,3 +162,30 @@ pub fn build(rest: &str) -> String {
     let m = b.module();
     format!("ok {} | {} | {}", out.join(" "), sel, show_module(&m))
 }
+
+/// `buildrt <call>*` — build, `module()`, assemble, `load_words`, compare the two modules structurally.
+pub fn buildrt(rest: &str) -> String {
+    use rspirv::binary::Assemble;
+    let mut b = Builder::new();
+    let mut out = vec![];
+    for t in rest.split(' ').filter(|x| !x.is_empty()) {
+        let parts: Vec<&str> = t.split('/').collect();
+        let r = match call_hand(&mut b, parts[0], &parts[1..]) {
+            Some(r) => r,
+            None => match call_generated(&mut b, parts[0], &parts[1..]) {
+                Some(r) => r,
+                None => return format!("bad-request {}", t),
+            },
+        };
+        out.push(r);
+    }
+    let m = b.module();
+    let built = show_module(&m);
+    let words = m.assemble();
+    let loaded = match dr::load_words(&words) {
+        Ok(l) => show_module(&l),
+        Err(e) => format!("load-error:{}", crate::chan::load::show_parse_err(&e)),
+    };
+    let verdict = if built == loaded { "same".to_string() } else { format!("differ loaded=[{}]", loaded) };
+    format!("ok {} | {} | built=[{}]", out.join(" "), verdict, built)
+}
